@@ -277,6 +277,159 @@ func C13(c *core.Ctx) {
 		}
 		c.Floor("R13.8", "first-buffer reads of no-copy encoders", nNC, 5)
 	}
+	// ---- R13.9 a natural number is decoded from 1, 2, 4 or 8 octets: in every generated
+	// parser, the accumulation `v = v<<8 | octet` over the announced length is reachable only
+	// on an edge asserting that the length is at most 8 — otherwise a ninth octet shifts the
+	// first one out and 2^64 decodes as 0 (an advertised cost, a lifetime, a sequence number)
+	{
+		nAcc, bad := 0, ""
+		seenFn := map[*ssa.Function]bool{}
+		for _, m := range models {
+			fn := p.Func(m.Pkg.PkgPath, m.Name+"ParsingContext", "Parse")
+			if fn == nil || fn.Blocks == nil || seenFn[fn] {
+				continue
+			}
+			seenFn[fn] = true
+			core.Instrs(fn, func(in ssa.Instruction) {
+				b, ok := in.(*ssa.BinOp)
+				if !ok || b.Op != token.SHL || !core.InLoop(b.Block()) {
+					return
+				}
+				if k, isC := core.ConstInt(b.Y); !isC || k != 8 {
+					return
+				}
+				if bt, isB := b.Type().Underlying().(*types.Basic); !isB || bt.Kind() != types.Uint64 {
+					return
+				}
+				nAcc++
+				short := &core.Atom{Name: "announced length <= 8", Match: func(cond ssa.Value) (int, int) {
+					op, x, y, okC := core.Cmp(cond)
+					if !okC {
+						return 0, 0
+					}
+					if nt, isN := core.StripConv(x).Type().(*types.Named); !isN || nt.Obj().Name() != "TLNum" {
+						return 0, 0
+					}
+					k, isC := core.ConstInt(core.StripConv(y))
+					if !isC || k < 0 {
+						return 0, 0
+					}
+					switch {
+					case op == token.EQL && k <= 8:
+						return 1, 0
+					case op == token.NEQ && k <= 8:
+						return 0, 1
+					case op == token.LEQ && k <= 8, op == token.LSS && k <= 9:
+						return 1, -1
+					case op == token.GTR && k <= 8, op == token.GEQ && k <= 9:
+						return -1, 1
+					}
+					return 0, 0
+				}}
+				g := core.Gate(fn, []ssa.Instruction{in}, pos(short))
+				if !(g.OK && g.PassEdges > 0) {
+					bad = core.FuncName(fn) + " at " + c.Pos(in)
+				}
+			})
+		}
+		c.Decide(bad == "", "R13.9", "natural-number-length-bounded", "-", fmt.Sprintf("%d natural-number accumulations in generated parsers, each behind a test of the announced length", nAcc), "a generated parser accumulates a natural number over as many octets as the element announces ("+bad+"): with nine octets the first is shifted out — 01 00 00 00 00 00 00 00 00 decodes as 0 — and the value re-encodes differently; the hand-written ParseNat accepts 1, 2, 4 or 8 octets only")
+		c.Floor("R13.9", "natural-number accumulations in generated parsers", nAcc, 20)
+	}
+	// ---- R13.10 in a map field every key element is followed by its value element: the
+	// generated encoders hand the entry's value to the (optional-field) value template only
+	// when it is not nil — a nil slice is replaced by an empty one, an entry with a nil
+	// pointer is left out — because that template writes nothing for nil, and a key without
+	// a value is rejected by the model's own parser
+	{
+		nSt, bad := 0, ""
+		for _, m := range models {
+			for _, meth := range []string{"Init", "EncodeInto"} {
+				fn := p.Func(m.Pkg.PkgPath, m.Name+"Encoder", meth)
+				if fn == nil || fn.Blocks == nil {
+					continue
+				}
+				facts := map[ssa.Value][]core.EdgeFact{}
+				var neverNil func(v ssa.Value, at ssa.Instruction, d int) bool
+				neverNil = func(v ssa.Value, at ssa.Instruction, d int) bool {
+					if d > 4 {
+						return false
+					}
+					switch x := core.Strip(v).(type) {
+					case *ssa.Alloc, *ssa.MakeSlice, *ssa.MakeInterface, *ssa.MakeMap:
+						return true
+					case *ssa.Slice:
+						if _, isAl := core.Strip(x.X).(*ssa.Alloc); isAl {
+							return true
+						}
+					case *ssa.Const:
+						return !x.IsNil()
+					case *ssa.Phi:
+						for i, e := range x.Edges {
+							pred := x.Block().Preds[i]
+							es := core.Strip(e)
+							if _, ok := facts[es]; !ok {
+								facts[es] = core.EdgeFacts(fn, atomNonNil("value != nil", es))
+							}
+							okE := false
+							for _, f := range facts[es] {
+								if f.Holds && f.E.From == pred && f.E.To == x.Block() {
+									okE = true
+								}
+							}
+							if !okE && !neverNil(e, pred.Instrs[len(pred.Instrs)-1], d+1) {
+								return false
+							}
+						}
+						return true
+					}
+					g := core.Gate(fn, []ssa.Instruction{at}, pos(atomNonNil("value != nil", core.Strip(v))))
+					return g.OK && g.PassEdges > 0
+				}
+				core.Instrs(fn, func(in ssa.Instruction) {
+					st, ok := in.(*ssa.Store)
+					if !ok {
+						return
+					}
+					fa, ok := st.Addr.(*ssa.FieldAddr)
+					if !ok {
+						return
+					}
+					al, isLocal := core.Strip(fa.X).(*ssa.Alloc)
+					if !isLocal {
+						return
+					}
+					_, fname := core.FieldAddrName(fa)
+					if !strings.HasSuffix(fname, "_v") {
+						return
+					}
+					// the entry as it is encoded (key and value), not the value-only
+					// struct that initialises nested encoders
+					hasKey := false
+					if stt, okS := core.Deref(al.Type()).Underlying().(*types.Struct); okS {
+						for i := 0; i < stt.NumFields(); i++ {
+							if strings.HasSuffix(stt.Field(i).Name(), "_k") {
+								hasKey = true
+							}
+						}
+					}
+					if !hasKey {
+						return
+					}
+					switch st.Val.Type().Underlying().(type) {
+					case *types.Slice, *types.Pointer, *types.Interface:
+					default:
+						return
+					}
+					nSt++
+					if !neverNil(st.Val, in, 0) {
+						bad = core.FuncName(fn) + " at " + c.Pos(in)
+					}
+				})
+			}
+		}
+		c.Decide(bad == "", "R13.10", "map-key-always-followed-by-value", "-", fmt.Sprintf("%d hand-overs of a map entry's value to the value template, none of a possibly nil value", nSt), "a generated map encoder hands a possibly nil entry value to the value template ("+bad+"), which writes nothing for nil: the key element is written without a value element and the model's own parser rejects the encoding (EOF, or 'unrecognized critical type' when another entry follows) — the whole message is lost")
+		c.Floor("R13.10", "map entry values handed to the value template", nSt, 4)
+	}
 	// ---- R13.6 every element field of every model has a TLV type number of its own: a field
 	// without a tag is written as type 0, which every generated parser — its own included —
 	// treats as an unrecognised critical element
